@@ -165,7 +165,8 @@ def toggles(prog, i, flat):
                     for col in fl["columns"]:
                         if col["name"] in d["targets"]:
                             col["parsers"].append(
-                                {"name": d["method"], "fn": d["fn"]})
+                                {"name": d["method"], "fn": d["fn"],
+                                 "title": "%s:%s" % (d["method"], d["fn"])})
                 for d in c["df_parsers"]:
                     fl["df_parsers"].append({"name": d["method"], "fn": d["fn"]})
         out.append((MECH_PARSER, f))
@@ -240,7 +241,21 @@ def brief_outcome(o):
             "errors": [list(map(repr, _errkey(e, True))) for e in o.errors][:8]}
 
 
-def compare_validate(run, model, flat_s, table, backend, lazy, tag):
+class _Sugar:
+    """Model(df) - the documented shorthand for Model.validate(df)."""
+
+    def __init__(self, model):
+        self.model = model
+
+    def validate(self, obj, **kw):
+        return self.model(obj, **kw)
+
+
+def compare_validate(run, model, flat_s, table, backend, lazy, tag,
+                     sugar=False):
+    if sugar:
+        run.count("validate_via_Model(df)")
+        model = _Sugar(model)
     # the object schema is rebuilt for every call so that whatever a failing
     # validate leaves behind on a schema (C05) cannot cascade into this check
     a = H.run_validate(model, P.make_data(table, backend), lazy=lazy)
@@ -498,7 +513,8 @@ def one_case(run, rng, backend=None, prog=None):
                     continue
                 if sm is None:
                     w = compare_validate(run, h1[i], flats[i], table, backend,
-                                         lazy, "struct-equal")
+                                         lazy, "struct-equal",
+                                         sugar=(k == 1 and lazy))
                     if w:
                         run.violation("verdict-differs",
                                       {**witness0, "class": i, "table": table,
@@ -588,5 +604,6 @@ def replay(path):
     r = new_run()
     one_case(r, random.Random(0), prog=prog)
     for v in r.violations:
-        print(v["kind"], v["mechanism"], json.dumps(v["witness"], default=repr)[:600])
+        print(v["kind"], v["mechanism"], "class", v["witness"].get("class"),
+              v["witness"].get("diff") or "")
     return 1 if r.violations else 0
